@@ -131,6 +131,14 @@ def check_all(tr, jumps, states, labels_site, M, n_atoms, T, dt, temp, info, dim
                     if k not in wedges:
                         raise Violation('graph-edge-set-is-matrix-support', f'{kw}: unexpected edge {k}')
                 info['labels'].append('graph')
+    # ---- occupancy of time parts: the same definition on each part's own states
+    if not double and 2 <= n_parts <= min(len(ev), T - 1):
+        for k_, part in enumerate(gcall(tr.split, n_parts)):
+            ps = np.asarray(part.states)
+            po = np.array([float(site.species.num_atoms) for site in gcall(part.occupancy)])
+            pw = np.array([np.sum(ps == i) for i in range(S)]) / len(ps)
+            if np.abs(po - pw).max() > 1e-12:
+                raise Violation('occupancy-is-fraction-of-frames', f'part {k_} of {n_parts} ({len(ps)} frames): {po.tolist()} vs {pw.tolist()}')
     # ---- rates
     # splitting is defined for n_parts up to min(#events, frames - 1) (C19)
     r = gcall(jumps.rates, n_parts, allow=(ValueError,)) if n_parts <= min(len(ev), T - 1) else Raised(None)
